@@ -38,12 +38,16 @@ def gen_cases(rng, n):
             a, b = rng.sample(ms, 2)
             c["graph_metrics"] = [{"name": "xm", "sql": f"{a['name']}.n + {b['name']}.n"}, {"name": "xr", "sql": f"{b['name']}.n * 100 / {a['name']}.n"}]
             c["queries"] += [{"metrics": ["xm"], "dims": [], "filters": []}, {"metrics": ["xr", "xm"], "dims": [f"{a['name']}.{a['dims'][0]['name']}"] if a["dims"] else [], "filters": []}]
+        # the same queries with a per-call dialect override: a call's own setting must not leak into later calls
+        c["queries"] += [dict(rng.choice(c["queries"]), dialect=rng.choice(["bigquery", "postgres", "snowflake"])) for _ in range(2)]
         c["orders"] = [[rng.randrange(len(c["queries"])) for _ in range(rng.choice([3, 6]))] for _ in range(2)]
         cases.append(c)
         cases.append(gen_cyclic(rng))
     for _ in range(max(2, n // 2)):
         m = S.gen_model(rng)
-        cases.append({"kind": "single", "model": m, "queries": [S.gen_query(rng, m) for _ in range(3)]})
+        qs1 = [S.gen_query(rng, m) for _ in range(3)]
+        qs1 += [dict(rng.choice(qs1), dialect=rng.choice(["bigquery", "postgres", "spark"]))]
+        cases.append({"kind": "single", "model": m, "queries": qs1, "orders": [[rng.randrange(len(qs1)) for _ in range(5)] for _ in range(2)]})
         m = c08.gen_model(rng)
         m["sql"] = None
         pas = c08.gen_preaggs(rng, m)
@@ -85,6 +89,7 @@ def gen_cyclic(rng):
         if rng.random() < 0.5:
             q["filters"] = [E.bin_("eq", E.col(f"{rng.choice(others)}.name"), E.lit("a"))]
         qs.append(q)
+    qs += [dict(rng.choice(qs), dialect=rng.choice(["bigquery", "postgres"])) for _ in range(2)]
     hist = [[rng.randrange(len(qs)) for _ in range(rng.choice([3, 6, 10]))] for _ in range(4)]
     return {"kind": "multi", "models": [ms[n] for n in order], "queries": qs, "orders": hist}
 
@@ -153,7 +158,7 @@ def run(ck: Check):
     compare(ck, cases, outs, stats)
     ck.coverage.update({
         "evaluations": stats["compilations"], "distinct_nontrivial": stats["compiled_ok"],
-        "rule": f"{len(cases)} layers (join forests incl. cross-model graph-level derived metrics, single models, models with pre-aggregations and routed queries, ratio/derived metric layers, window metrics) x their queries x {len(seeds)} child processes with distinct PYTHONHASHSEED; per process also a reversed-order pass on one shared layer with explain() calls and repeated calls, and random histories (3-10 compiles, with repeats) each on its own shared layer; diamond join graphs (two equally short routes) in every registration/declaration order with metric-, dimension- and filter-only reachability; model_dump snapshots",
+        "rule": f"{len(cases)} layers (join forests incl. cross-model graph-level derived metrics, single models, models with pre-aggregations and routed queries, ratio/derived metric layers, window metrics) x their queries x {len(seeds)} child processes with distinct PYTHONHASHSEED; per process also a reversed-order pass on one shared layer with explain() calls and repeated calls, and random histories (3-10 compiles, with repeats, some with a per-call dialect override) each on its own shared layer; diamond join graphs (two equally short routes) in every registration/declaration order with metric-, dimension- and filter-only reachability; model_dump snapshots",
         "stats": dict(stats), "traces_validated_against_impl": stats["compilations"],
     })
     ck.assumptions += ["hash-seed sensitivity is the only source of cross-process nondeterminism considered (no time, randomness or environment reads were found in the scanned modules)",
